@@ -250,7 +250,7 @@ class Outcome(namedtuple('Outcome', 'ret events obs')):
 
 class Explorer:
     def __init__(self, facts, inline_depth=3, budget=200000, no_inline=(), force_domain=None,
-                 observe=(), models=None, loop_visits=2, inline_only=None, watch=()):
+                 observe=(), models=None, loop_visits=2, inline_only=None, watch=(), model_hook=None):
         self.facts = facts
         self.inline_depth = inline_depth
         self.budget = budget
@@ -262,6 +262,7 @@ class Explorer:
         self.loop_visits = loop_visits
         self.inline_only = inline_only
         self.watch = tuple(watch)
+        self.model_hook = model_hook
         self.memo = {}
         self.cut = False
 
@@ -374,6 +375,10 @@ class Explorer:
         """returns a value, or None when not modelled"""
         name = fd_name(fd)
         deff = fd.get('def')
+        if self.model_hook is not None:
+            r = self.model_hook(self, name, deff, args)
+            if r is not None:
+                return r
         if name in self.models:
             r = self.models[name](self, args)
             if r is not None:
@@ -421,6 +426,19 @@ class Explorer:
             if isinstance(a, S) and isinstance(b, S):
                 return I(int(a.s.lower() == b.s.lower()))
             return TOP
+        if name == 'alloc::boxed::box_assume_init_into_vec_unsafe' or name == 'alloc::slice::<impl [T]>::into_vec':
+            def find(v):
+                v = strip(v)
+                if isinstance(v, T):
+                    return v
+                if isinstance(v, U):
+                    for _, c in v.ch:
+                        r = find(c)
+                        if r is not None:
+                            return r
+                return None
+            r = find(args[0])
+            return r if r is not None else TOP
         if deff == 'core::ops::bit::Not::not':
             v = strip(args[0])
             if isinstance(v, I) and v.n in (0, 1):
@@ -508,6 +526,8 @@ class Explorer:
                 val = self.rvalue(env, rv, depth, dsrc, loc if not projs else None)
                 if rv[0] == 'agg' and rv[1][0] == 'adt':
                     events = events | {('agg', rv[1][1], rv[1][3])}
+                elif rv[0] == 'agg' and rv[1][0] in ('closure', 'coroutine', 'coroutine_closure'):
+                    events = events | {('mkclosure', rv[1][1])}
                 if not projs:
                     nm = names.get(loc)
                     if nm in self.force_domain and not ground(val):
